@@ -124,6 +124,27 @@ mut("c20-hash-order-dependent-else", "C20",
     "    def _generate_equal_check(self, on_value):\n        return f\"inval == {ord(on_value)} /* {on_value!r} */\"",
     "    def _generate_equal_check(self, on_value):\n        return f\"inval == {(ord(on_value) + (1 if hash(str(on_value) * 3) % 97 == 0 else 0)) & 255} /* {on_value!r} */\"")
 
+# ---- the repairs of rounds 9-11, reverted one by one (each was first shown by the named check on the tree before the repair)
+mut("c03-hex-escape-run-on", "C03",
+    '                result += "\\\\{:03o}".format(i)', '                result += "\\\\x{:02x}".format(i)')
+mut("c03-oversized-default-accepted", "C03",
+    "            if default_value is not None and len(default_value.encode('utf-8') if isinstance(default_value, str) else default_value) > storage.effective_string_size():",
+    "            if False:")
+mut("c03-text-constant-measured-in-characters", "C03",
+    "        if isinstance(value, str):\n            return len(value.encode('utf-8'))\n        else:\n            return len(value)",
+    "        return len(value)",
+    more=[("        escaped_length = self._string_constant_length(value)\n", "        escaped_length = len(value.encode('utf-8')) if isinstance(value, str) else len(value)\n"),
+          ("len(default_value.encode('utf-8') if isinstance(default_value, str) else default_value) > storage", "len(default_value) > storage")])
+mut("c04-oos-handler-cycle-unchecked", "C04",
+    "                        if symbol is not DFTransition.End and walk(action.end_target, symbol, False, set()):",
+    "                        if False:")
+mut("c17-end-static-verdict-after-conditional-break", "C17",
+    "        elif from_end and any(x.get_target_override_mode() != ActionOverrideMode.NONE for x in transition.actions):",
+    "        elif False:")
+mut("c04-set-lookup-partial-overlap-takes-else", "C04",
+    "                elif data & set(i.on_values):\n                    # only some of the symbols take this transition: no single transition answers for all of them\n                    return None",
+    "                elif data > set(i.on_values):\n                    return None")
+
 
 # ---- benign changes: behaviour-preserving edits that change the emitted C noticeably.  No check may raise an alarm.
 BENIGN = []
